@@ -235,7 +235,63 @@ def run_twins(flags):
     return {"a": res["files"]["a/test_same.py"].decode(), "b": res["files"]["b/test_same.py"].decode(), "session_exc": res["session_exc"], "tests": res["tests"]}
 
 
+# the hand-written argument holds an f-string whose value changes between the evaluations (an f-string is no Is(): the stored value would silently go stale)
+REEVAL_F = """from inline_snapshot import snapshot
+R = []
+G = [{first}]
+
+def site():
+    return snapshot({arg})
+
+def test_a():
+    try:
+        R.append(("ok", {cmp1}))
+        G[0] = {second}
+        R.append(("ok", {cmp2}))
+    except BaseException as e:
+        R.append(("exc", type(e).__name__))
+"""
+
+
+def reeval_fstring_cases():
+    out = []
+    for arg, val in (("f'item {G[0]}'", "'item %s'"), ("[f'item {G[0]}', 'other']", "['item %s', 'other']"), ("{'k': f'item {G[0]}'}", "{'k': 'item %s'}"),
+                     ("(1, [f'{G[0]}'])", "(1, ['%s'])")):
+        for second in ("'b'", "'a'"):
+            out.append({"first": "'a'", "second": second, "arg": arg, "cmp1": f"{val % 'a'} == site()", "cmp2": f"{val % second.strip(chr(39))} == site()", "fstring": True})
+    out.append({"first": "'a'", "second": "'b'", "arg": "f'item {G[0]}'", "cmp1": "'item' <= site()", "cmp2": "'item' <= site()", "fstring": True})
+    return out
+
+
+# sub-snapshots s[key] that are fetched several times BEFORE they are compared (pairs built first, compared later): every comparison counts
+COLLECTED = [
+    ("    s = snapshot()\n    cases = [(v, s['b']) for v in (30, 55, 44)]\n    for v, snap in cases:\n        assert v <= snap\n", ("create",), {"b": 55}),
+    ("    s = snapshot()\n    cases = [(v, s['m']) for v in (30, 47, 44)]\n    for v, snap in cases:\n        assert v in snap\n", ("create",), {"m": [30, 47, 44]}),
+    ("    s = snapshot({'b': 40})\n    cases = [(v, s['b']) for v in (30, 55, 44)]\n    for v, snap in cases:\n        assert v <= snap\n", ("fix",), {"b": 55}),
+    ("    s = snapshot()\n    a, b, c = s['x'], s['y'], s['x']\n    assert 3 >= a\n    assert 9 == b\n    assert 1 >= c\n", ("create",), {"x": 1, "y": 9}),
+    ("    s = snapshot()\n    first = s['k']\n    again = s['k']\n    assert first is again\n    assert 5 == again\n", ("create",), {"k": 5}),
+]
+
+
+def run_collected(item):
+    body, flags, want = item
+    src = "from inline_snapshot import snapshot\n\n\ndef test_a():\n" + body
+    res = driver.run_inproc({"test_a.py": src}, flags)
+    after = res["files"]["test_a.py"].decode()
+    out = {"source": src, "after": after, "session_exc": res["session_exc"], "tests": [(t[1], t[2][:200]) for t in res["tests"]], "got": None}
+    try:
+        call = snapshot_calls(after)[0]
+        out["got"] = eval(compile(ast.Expression(call.args[0]), "<a>", "eval"), {}) if call.args else None
+    except Exception as e:  # noqa
+        out["error"] = f"{type(e).__name__}: {e}"
+    return out
+
+
 def run_reeval(case):
+    if case.get("fstring"):
+        src = REEVAL_F.format(**{k: v for k, v in case.items() if k != "fstring"})
+        res = driver.run_inproc({"test_a.py": src}, ())
+        return {"R": res["R"].get("test_a.py"), "after": res["files"]["test_a.py"].decode(), "source": src, "session_exc": res["session_exc"]}
     src = REEVAL.format(**case)
     res = driver.run_inproc({"test_a.py": src}, ())
     return {"R": res["R"].get("test_a.py"), "after": res["files"]["test_a.py"].decode(), "source": src, "session_exc": res["session_exc"]}
@@ -280,7 +336,13 @@ def run(ctx: Ctx):
                    {"kind": "prog", "prog": p, "source": o["source"], "after": o["after"]}, no_input=True, kind="correspondence")
     ctx.sample({"program": outs[0]["source"], "flags": progs[0]["flags"], "per_site": outs[0].get("per_site")})
     # re-evaluation
-    rc = reeval_cases()
+    for it, o in zip(COLLECTED, pmap(run_collected, COLLECTED, chunksize=1)):
+        ctx.count(("collected", it[0], it[1]), True)
+        if o["session_exc"] or "error" in o or any(t[1] != "ok" for t in o["tests"]) or o["got"] != it[2]:
+            ctx.report(f"sub-snapshots fetched before they are compared: with {it[1]} the snapshot holds {o['got']}, the aggregate of all comparisons is {it[2]} "
+                       f"(tests {o['tests']}, session {o['session_exc']})", {"kind": "collected", "body": it[0], "flags": list(it[1])})
+    ctx.coverage["oracle"]["collected_subsnapshot_cases"] = len(COLLECTED)
+    rc = reeval_cases() + reeval_fstring_cases()
     for c, o in zip(rc, pmap(run_reeval, rc)):
         ctx.count(("reeval", repr(c)), True)
         R = o["R"] or []
@@ -330,6 +392,11 @@ def replay(ctx: Ctx, data):
         why = c17.judge_sched(s_, c17.run_sched(s_))
         print("oracle:", why)
         return why is None
+    if case.get("kind") == "collected":
+        it = [x for x in COLLECTED if x[0] == case["body"] and list(x[1]) == case["flags"]][0]
+        o = run_collected(it)
+        print(o)
+        return not (o["session_exc"] or "error" in o or any(t[1] != "ok" for t in o["tests"]) or o["got"] != it[2])
     if case.get("kind") == "dynamic":
         o = run_dynamic(case["body"])
         print(o)
